@@ -356,13 +356,22 @@ func (s *Store[K, V]) GetWithSecodary(key K) (V, bool, error) {
 	return value, true, nil
 }
 
+// sendWrite sends item to the write channel. Once the cache is closed the maintenance
+// goroutine no longer receives, so also return on cancellation instead of blocking forever.
+func (s *Store[K, V]) sendWrite(item WriteBufItem[K, V]) {
+	select {
+	case s.writeChan <- item:
+	case <-s.ctx.Done():
+	}
+}
+
 func (s *Store[K, V]) policyNewEntry(hash uint64, shard *Shard[K, V], cost int64, entry *Entry[K, V], fromNVM bool) {
 	if verifOn {
 		verifAt(VpPreSend, s, entry, nil, int64(NEW), cost)
 	}
-	s.writeChan <- WriteBufItem[K, V]{
+	s.sendWrite(WriteBufItem[K, V]{
 		code: NEW, entry: entry, hash: hash, fromNVM: fromNVM, costChange: cost,
-	}
+	})
 	if verifOn {
 		verifAt(VpPostSend, s, entry, nil, int64(NEW), cost)
 	}
@@ -376,10 +385,10 @@ func (s *Store[K, V]) policyUpdateEntry(entry *Entry[K, V], hash uint64, cost, o
 	if verifOn {
 		verifAt(VpPreSend, s, entry, nil, int64(UPDATE), costChange)
 	}
-	s.writeChan <- WriteBufItem[K, V]{
+	s.sendWrite(WriteBufItem[K, V]{
 		entry: entry, code: UPDATE, costChange: costChange, rechedule: reschedule,
 		hash: hash,
-	}
+	})
 	if verifOn {
 		verifAt(VpPostSend, s, entry, nil, int64(UPDATE), costChange)
 	}
@@ -527,7 +536,7 @@ func (s *Store[K, V]) Delete(key K) {
 		if verifOn {
 			verifAt(VpPreSend, s, entry, nil, int64(REMOVE), 0)
 		}
-		s.writeChan <- WriteBufItem[K, V]{entry: entry, code: REMOVE, hash: h}
+		s.sendWrite(WriteBufItem[K, V]{entry: entry, code: REMOVE, hash: h})
 		if verifOn {
 			verifAt(VpPostSend, s, entry, nil, int64(REMOVE), 0)
 		}
@@ -557,7 +566,7 @@ func (s *Store[K, V]) DeleteWithSecondary(key K) error {
 		if verifOn {
 			verifAt(VpPreSend, s, entry, nil, int64(REMOVE), 0)
 		}
-		s.writeChan <- WriteBufItem[K, V]{entry: entry, code: REMOVE}
+		s.sendWrite(WriteBufItem[K, V]{entry: entry, code: REMOVE})
 		if verifOn {
 			verifAt(VpPostSend, s, entry, nil, int64(REMOVE), 0)
 		}
